@@ -268,10 +268,10 @@ PROPS = {
     'C16': {
         'proofs': ['Ww.Proofs.C16'],
         'gen_sections': ['Routes', 'Facts', 'pkg/router/router.go'],
-        'drivers': [{'name': 'c16'}, {'name': 'hist'}],
+        'drivers': [{'name': 'c16'}, {'name': 'hist'}, {'name': 'cook'}],
         'reasons': ['C16.'],
-        'class_fields': _merge(HIST_CLASS, {'cors': ['dom', 'corsep', 'preflight', 'acac', 'status'], 'proxycmds': ['op', 'status', 'cmds']}),
-        'nontrivial': HIST_NT,
+        'class_fields': _merge(HIST_CLASS, {'cors': ['dom', 'corsep', 'preflight', 'acac', 'status'], 'proxycmds': ['op', 'status', 'cmds'], 'setcookie': ['sso', 'ssodomain', 'op', 'class', 'clear', 'domain', 'path']}),
+        'nontrivial': _merge(HIST_NT, {'setcookie': lambda f: f.get('sso') == '1', 'jar': lambda f: False, 'cookieval14': lambda f: False, 'retrychain': lambda f: False, 'retryreset': lambda f: False, 'ratelimit': lambda f: False}),
         'rule': "c16 driver: Origin values (8 schemes x 22 host shapes incl. look-alikes, suffix/prefix confusions, case, ports, userinfo) x 4 SSO-domain spellings x 7 endpoints x simple/preflight against the real "
                 "SSO-server router; an SSO proxy and server on one miniredis with every command attributed by client name while the proxy serves 13 operations over shifted clocks. hist driver: sso-proxy and sso-server histories.",
         'level_text': "Proof: for EVERY origin string and domain spelling, corsAllows implies the lower-cased origin is https:// followed by the SSO domain or something ending in '.'+domain (string theorem); "
